@@ -41,10 +41,84 @@ def num_grad(f, v, h=1e-6):
     return g
 
 
+def large_systems(chk, classes):
+    """The formulas TLC verified on the one-qubit configurations (QLoss: value, gradient and Hessian of both families as
+    functions of the model (A, b), the data and the weights), evaluated in numpy on a qutrit and on two qubits - systems
+    whose model matrices C08 validates (MC_C08_big) but whose exact losses do not fit TLC's 32-bit rationals."""
+    from quara.objects.state import State
+    from quara.objects.povm import Povm
+    from quara.protocol.qtomography.standard.standard_qst import StandardQst
+    from quara.protocol.qtomography.standard.standard_povmt import StandardPovmt
+    from harness import qobjs
+    rs = np.random.RandomState(5)
+    c3, c22 = qobjs.csys("qutrit", 1), qobjs.csys("qubit", 2)
+    mixed = lambda c: np.concatenate([[1.0 / np.sqrt(c.dim)], np.zeros(c.dim ** 2 - 1)])
+    inner = lambda c, name, lam: State(c, lam * qobjs.gen("state", name, c).vec + (1 - lam) * mixed(c), is_physicality_required=False)
+    pv22 = [qobjs.gen("povm", n, c22) for n in ("x_x", "x_y", "y_z", "z_x", "z_z", "y_y", "z_y", "x_z", "y_x")]
+    st22 = [qobjs.gen("state", "%s_%s" % (a, b), c22) for a in ("x0", "y0", "z0", "z1") for b in ("x0", "y0", "z0", "z1")]
+    bellm = qobjs.gen("povm", "bell", c22)
+    cfgs = []
+    for para in (True, False):
+        cfgs.append(("qst:qutrit", StandardQst(qobjs.tester_povms("qutrit"), on_para_eq_constraint=para), inner(c3, "01x0", 0.6), inner(c3, "12y1", 0.5), para))
+        cfgs.append(("qst:2qubit", StandardQst(pv22, on_para_eq_constraint=para), inner(c22, "bell_phi_plus", 0.7), inner(c22, "x0_z1", 0.6), para))
+        noisy = Povm(c22, [0.85 * v + 0.15 * np.concatenate([[0.5], np.zeros(15)]) for v in bellm.vecs], is_physicality_required=False)
+        cfgs.append(("povmt:2qubit:m4", StandardPovmt(st22, 4, on_para_eq_constraint=para), noisy, bellm, para))
+    for name, qt, at, truth, para in cfgs:
+        at2, tr2 = at.copy(), truth.copy()
+        at2._on_para_eq_constraint = para
+        tr2._on_para_eq_constraint = para
+        v = np.asarray(at2.to_var(), dtype=float)
+        A, b = np.asarray(qt.calc_matA(), dtype=float), np.asarray(qt.calc_vecB(), dtype=float)
+        sizes = [len(p_) for p_ in qt.calc_prob_dists(tr2)]
+        offs = np.cumsum([0] + sizes)
+        data = []
+        for j, p_ in enumerate(qt.calc_prob_dists(tr2)):
+            f = np.clip(np.asarray(p_, dtype=float), 0, None) + 0.05 + 0.02 * rs.rand(len(p_))
+            data.append((100 + 10 * j, f / f.sum()))
+        q = np.concatenate([f for _, f in data])
+        p = A @ v + b
+        for mode in ("identity", "custom"):
+            Ws, wre = [], []
+            for j, m in enumerate(sizes):
+                M = rs.randn(m, m)
+                Ws.append(np.eye(m) if mode == "identity" else M @ M.T + (1 + j) * np.eye(m))
+                wre.append(1.0 if mode == "identity" else 1.0 + 0.5 * j)
+            Wb = np.zeros((len(q), len(q)))
+            for j in range(len(sizes)):
+                Wb[offs[j]:offs[j + 1], offs[j]:offs[j + 1]] = Ws[j]
+            wrow = np.concatenate([[wre[j]] * sizes[j] for j in range(len(sizes))])
+            exp = {"se": ((p - q) @ Wb @ (p - q), 2 * A.T @ Wb @ (p - q), 2 * A.T @ Wb @ A),
+                   "re": (float(np.sum(wrow * q * np.log(q / p))), -A.T @ (wrow * q / p), A.T @ ((wrow * q / p ** 2)[:, None] * A))}
+            for fam, (L, O) in classes.items():
+                is_re = fam.startswith("re")
+                tagk = "%s:%s:%s" % (name, "para" if para else "nopara", mode)
+                chk.count(1, ("large", fam, tagk))
+
+                def bad(clause, msg):
+                    chk.violation("large:%s:%s:%s:%s" % (clause, fam, mode, name), "%s [%s]" % (msg, tagk), dict(config=name, para=para, mode=mode, family=fam))
+                try:
+                    opt = O(mode_weight="custom", weights=[float(x) for x in wre] if is_re else [w.copy() for w in Ws]) if mode == "custom" else O(mode_weight="identity")
+                    loss = L()
+                    loss.set_from_standard_qtomography_option_data(qt, opt, [(n, f.copy()) for n, f in data], True, not fam.endswith("fast"))
+                    val, grad = float(loss.value(v.copy())), np.asarray(loss.gradient(v.copy()), dtype=float)
+                    e_val, e_grad, e_hess = exp["re" if is_re else "se"]
+                    if abs(val - e_val) > 1e-9 * (1 + abs(e_val)):
+                        bad("value", "value %r, defining formula gives %r" % (val, e_val))
+                    if grad.shape != e_grad.shape or not coords.close(grad, e_grad, 1e-8):
+                        bad("gradient", "gradient differs from the defining formula")
+                    if not fam.endswith("fast"):
+                        hess = np.asarray(loss.hessian(v.copy()), dtype=float)
+                        if hess.shape != e_hess.shape or not coords.close(hess, e_hess, 1e-7):
+                            bad("hessian", "Hessian differs from the defining formula")
+                except Exception as e:
+                    bad("exception", "%r" % e)
+
+
 def run(chk):
     t = chk.tier
     r = chk.tlc("mc/MC_C12", "mc/MC_C12_%s.cfg" % t, workers=16, label="MC_C12 " + t, timeout=7000)
     classes = loss_classes()
+    large_systems(chk, classes)
     cache = {}
     reused = {}
     n_re = 0
